@@ -16,6 +16,7 @@ Shapes_cli_validate_manifest == {"celConditionBad", "celPathNonBool", "duplicate
 Shapes_objectset_status == {"absent", "condIntValues", "condNoReason", "condNoStatus", "condNoType", "condNotAMap", "condNull", "condOGString", "condsNotAList", "curIntValues", "curNoMessage", "curNoReason", "curNoStatus", "curNoType", "nestedDeep", "notAMap", "ogFloat", "ogString", "wellFormed"}
 Shapes_objectset_stored_conditions == {"allMapped", "mappedFirst", "mappedLast", "mappedMiddle", "none", "onlyMapped", "twoAdjacent", "twoApart"}
 Shapes_deployment_stored_conditions == {"allMapped", "mappedFirst", "mappedLast", "mappedMiddle", "none", "onlyMapped", "twoAdjacent", "twoApart"}
+Shapes_objectset_probes == {"emptyList", "emptyProbe", "twoEmptyProbes"}
 Shapes_oci_import == {"absolutePath", "badSecondHeader", "dotdot", "duplicate", "emptyLayer", "garbage", "outsideDir", "streamError", "truncated", "valid"}
 Shapes_render_condmap == {"badLine2", "empty", "emptyLeft", "emptyRight", "noArrow", "onlySpaces", "twoLines", "valid"}
 Shapes_render_include == {"finiteDepth", "mutualRecursion", "recurseAfterLeaf", "recurseTwice", "selfRecursion"}
@@ -34,6 +35,7 @@ Rows == { <<"cli-tree-condmap", s>> : s \in Shapes_cli_tree_condmap } \cup
         { <<"cli-validate-manifest", s>> : s \in Shapes_cli_validate_manifest } \cup
         { <<"objectset-status", s>> : s \in Shapes_objectset_status } \cup
         { <<"oci-import", s>> : s \in Shapes_oci_import } \cup
+        { <<"objectset-probes", s>> : s \in Shapes_objectset_probes } \cup
         { <<"objectset-stored-conditions", s>> : s \in Shapes_objectset_stored_conditions } \cup
         { <<"deployment-stored-conditions", s>> : s \in Shapes_deployment_stored_conditions } \cup
         { <<"render-include", s>> : s \in Shapes_render_include } \cup
